@@ -522,9 +522,13 @@ func c06ReplacementMerge(c *Ctx) {
 			// only loops that merge a path set into the replacement: some call f(replacementID, <map>)
 			merges := false
 			ast.Inspect(rs.Body, func(m ast.Node) bool {
-				if call, ok := m.(*ast.CallExpr); ok && len(call.Args) == 2 && identObj(info, call.Args[0]) == rv {
-					if _, isMap := info.TypeOf(call.Args[1]).Underlying().(*types.Map); isMap {
-						merges = true
+				if call, ok := m.(*ast.CallExpr); ok && passesObj(info, call, rv) {
+					for _, a := range call.Args {
+						if mt, isMap := info.TypeOf(a).Underlying().(*types.Map); isMap {
+							if _, isSet := mt.Elem().Underlying().(*types.Struct); isSet {
+								merges = true
+							}
+						}
 					}
 				}
 				return true
@@ -536,7 +540,7 @@ func c06ReplacementMerge(c *Ctx) {
 			skipBefore := false
 			for _, st := range rs.Body.List {
 				if es, ok := st.(*ast.ExprStmt); ok {
-					if call, ok := es.X.(*ast.CallExpr); ok && len(call.Args) >= 1 && identObj(info, call.Args[0]) == rv {
+					if call, ok := es.X.(*ast.CallExpr); ok && passesObj(info, call, rv) {
 						uncond = !skipBefore
 						break
 					}
@@ -722,7 +726,7 @@ func c08ParseVerbatim(c *Ctx) {
 func c10MissingImportIsError(c *Ctx) {
 	const rule = "CLOSURE-COMPLETE"
 	p := c.P
-	fr := p.Func("private/bufpkg/bufimage", "imageFileInfosWithOnlyTargetsAndTargetImportsRec")
+	fr := c10LsClosureRec(p)
 	if fr == nil {
 		c.Fail(rule, "ls-files/missing-import-is-error", token.NoPos, "closure function not found")
 		return
@@ -817,4 +821,13 @@ func c10DepGraphLoops(c *Ctx) {
 	if n == 0 {
 		c.Fail(rule, "sites", token.NoPos, "no loop over []bufmodule.Module in depgraph")
 	}
+}
+
+func passesObj(info *types.Info, call *ast.CallExpr, obj types.Object) bool {
+	for _, a := range call.Args {
+		if identObj(info, a) == obj {
+			return true
+		}
+	}
+	return false
 }
